@@ -108,6 +108,9 @@ func (c *Ctx) Fail(clause, kind, where, format string, a ...any) {
 	panic(failSentinel{})
 }
 
+// Abort ends the run with the violation already recorded in c.V.
+func (c *Ctx) Abort() { panic(failSentinel{}) }
+
 // Record records a violation (first one wins) without aborting.
 func (c *Ctx) Record(clause, kind, where, format string, a ...any) {
 	if c.V == nil {
